@@ -1,4 +1,5 @@
 import GramModel.Lemmas.Lexer
+import GramModel.Lemmas.LexerRender
 
 /-!
 # C10 — comments, spacing and line layout do not change a program's meaning
@@ -137,3 +138,223 @@ def kindsOf : LexResult → List Nat
 -- `x = 1 +⏎  2 #c⏎⏎y`  vs  `x=1+2⏎y`
 example : kindsOf (tokenize C10_cc ['x',' ','=',' ','1',' ','+','\n',' ',' ','2',' ','#','c','\n','\n','y'])
         = kindsOf (tokenize C10_cc ['x','=','1','+','2','\n','y']) := by decide
+
+/-! ## The global render/tokenize law (unbounded)
+
+A text is a *rendering* (`renderText g0 items eof`, `Lemmas/LexerRender.lean`): a leading gap, lexemes each
+followed by a gap of blanks / comment lines / line feeds, and an optional final comment ended by the
+end of the file.  `Rendering cc g0 items eof` bundles the hypotheses: every gap item is `ok`, every
+lexeme `IsLexeme`, the final comment has no line feed, and adjacent lexemes with an empty gap between
+them do not fuse (`SepOK`). -/
+
+/-- **Render/tokenize law.**  For every sane classifier, every rendering tokenizes (no panic, no
+error), and the kinds of its tokens depend on the layout only through "does gap `i` contain a line
+break": they are `weave` of the lexeme kinds and these lexFlags, i.e. a line-break terminator stands
+between lexemes `i` and `i+1` iff gap `i` has a line break, lexeme `i` can end an expression and
+lexeme `i+1` can start one. -/
+def C10_render_law_stmt : Prop :=
+  ∀ (cc : CharClass), cc.Sane2 → ∀ (g0 : Gap) (items : List LexItem) (eof : Option (List Char)),
+    Gap.ok cc g0 → ItemsOK cc items → EofOK eof → SepOK cc items →
+    ∃ ts, tokenize cc (renderText g0 items eof) = .ok ts ∧
+      ts.map (·.kind) = weave (items.map fun it => (it.2.1, Gap.hasNL it.2.2))
+theorem C10_render_law : C10_render_law_stmt := by
+  intro cc hs g0 items eof h0 h1 h2 h3
+  exact render_law cc hs g0 items eof h0 h1 h2 h3
+
+/-- Scanner-level form: before the second pass the token kinds are exactly `rawKinds`: every lexeme, and
+a line-break terminator after lexeme `i` iff gap `i` has a line break and lexeme `i` can end an
+expression (also after the last lexeme; never before the first). -/
+def C10_render_scan_stmt : Prop :=
+  ∀ (cc : CharClass), cc.Sane2 → ∀ (g0 : Gap) (items : List LexItem) (eof : Option (List Char)),
+    Rendering cc g0 items eof →
+    (scan0 cc (renderText g0 items eof)).panic = false ∧ (scan0 cc (renderText g0 items eof)).errs = [] ∧
+    (scan0 cc (renderText g0 items eof)).toks.reverse.map (·.kind) = rawKinds (lexFlags items)
+theorem C10_render_scan : C10_render_scan_stmt := by
+  intro cc hs g0 items eof h
+  exact scan_render cc hs g0 items eof h.1 h.2.1 h.2.2.1 h.2.2.2
+
+/-- Layout is irrelevant: two renderings with the same lexeme kinds (in particular: of the same
+lexemes) whose gaps agree on "contains a line break" give the same token kinds — whatever the
+leading gaps, the blanks, the comments, the number of consecutive line breaks and the final
+comments are. -/
+def C10_layout_irrelevant_stmt : Prop :=
+  ∀ (cc : CharClass), cc.Sane2 → ∀ (g0 g0' : Gap) (items items' : List LexItem)
+    (eof eof' : Option (List Char)),
+    Rendering cc g0 items eof → Rendering cc g0' items' eof' →
+    items.map (·.2.1) = items'.map (·.2.1) →
+    (items.map fun it => Gap.hasNL it.2.2) = (items'.map fun it => Gap.hasNL it.2.2) →
+    ∃ ts ts', tokenize cc (renderText g0 items eof) = .ok ts ∧
+      tokenize cc (renderText g0' items' eof') = .ok ts' ∧ ts.map (·.kind) = ts'.map (·.kind)
+theorem C10_layout_irrelevant : C10_layout_irrelevant_stmt := by
+  intro cc hs g0 g0' items items' eof eof' h h' hk hn
+  obtain ⟨ts, h1, h2⟩ := h.law hs
+  obtain ⟨ts', h1', h2'⟩ := h'.law hs
+  refine ⟨ts, ts', h1, h1', ?_⟩
+  rw [h2, h2', lexFlags_eq_zip, lexFlags_eq_zip, hk, hn]
+
+/-- A line break after a lexeme that cannot end an expression (operator, opening bracket, …) is not
+a separator: changing gap `i` arbitrarily does not change the kinds. -/
+def C10_break_after_cannot_end_stmt : Prop :=
+  ∀ (cc : CharClass), cc.Sane2 → ∀ (g0 g0' : Gap) (pre post : List LexItem) (l : List Char)
+    (k : TokKind) (g g' : Gap) (eof eof' : Option (List Char)),
+    Rendering cc g0 (pre ++ (l, k, g) :: post) eof → Rendering cc g0' (pre ++ (l, k, g') :: post) eof' →
+    Generated.canEnd k = some false →
+    ∃ ts ts', tokenize cc (renderText g0 (pre ++ (l, k, g) :: post) eof) = .ok ts ∧
+      tokenize cc (renderText g0' (pre ++ (l, k, g') :: post) eof') = .ok ts' ∧
+      ts.map (·.kind) = ts'.map (·.kind)
+theorem C10_break_after_cannot_end : C10_break_after_cannot_end_stmt := by
+  intro cc hs g0 g0' pre post l k g g' eof eof' h h' hk
+  obtain ⟨ts, h1, h2⟩ := h.law hs
+  obtain ⟨ts', h1', h2'⟩ := h'.law hs
+  refine ⟨ts, ts', h1, h1', ?_⟩
+  rw [h2, h2', lexFlags_append, lexFlags_append]
+  exact weave_cannot_end _ k _ _ _ hk
+
+/-- A line break before a lexeme that cannot start an expression (binary operator, closing bracket,
+`then`, `else`, …) is not a separator either. -/
+def C10_break_before_cannot_start_stmt : Prop :=
+  ∀ (cc : CharClass), cc.Sane2 → ∀ (g0 g0' : Gap) (pre post : List LexItem) (l l2 : List Char)
+    (k k2 : TokKind) (g g' g2 : Gap) (eof eof' : Option (List Char)),
+    Rendering cc g0 (pre ++ (l, k, g) :: (l2, k2, g2) :: post) eof →
+    Rendering cc g0' (pre ++ (l, k, g') :: (l2, k2, g2) :: post) eof' →
+    Generated.canStart k2 = some false →
+    ∃ ts ts', tokenize cc (renderText g0 (pre ++ (l, k, g) :: (l2, k2, g2) :: post) eof) = .ok ts ∧
+      tokenize cc (renderText g0' (pre ++ (l, k, g') :: (l2, k2, g2) :: post) eof') = .ok ts' ∧
+      ts.map (·.kind) = ts'.map (·.kind)
+theorem C10_break_before_cannot_start : C10_break_before_cannot_start_stmt := by
+  intro cc hs g0 g0' pre post l l2 k k2 g g' g2 eof eof' h h' hk
+  obtain ⟨ts, h1, h2⟩ := h.law hs
+  obtain ⟨ts', h1', h2'⟩ := h'.law hs
+  refine ⟨ts, ts', h1, h1', ?_⟩
+  rw [h2, h2', lexFlags_append, lexFlags_append]
+  exact weave_cannot_start _ k _ _ k2 _ _ hk
+
+/-- A line break between a lexeme that can end an expression and one that can start an expression
+separates definitions: the kinds are those of the part before (`A`), one line-break terminator, and
+those of the part after (`B`) — whereas the layout with gap `i` on one line gives `A ++ B`. -/
+def C10_linebreak_is_separator_stmt : Prop :=
+  ∀ (cc : CharClass), cc.Sane2 → ∀ (g0 g0' : Gap) (pre post : List LexItem) (l l2 : List Char)
+    (k k2 : TokKind) (g gflat g2 : Gap) (eof eof' : Option (List Char)),
+    Rendering cc g0 (pre ++ (l, k, g) :: (l2, k2, g2) :: post) eof →
+    Rendering cc g0' (pre ++ (l, k, gflat) :: (l2, k2, g2) :: post) eof' →
+    Gap.hasNL g = true → Gap.hasNL gflat = false →
+    Generated.canEnd k = some true → Generated.canStart k2 = some true →
+    ∃ ts ts', tokenize cc (renderText g0 (pre ++ (l, k, g) :: (l2, k2, g2) :: post) eof) = .ok ts ∧
+      tokenize cc (renderText g0' (pre ++ (l, k, gflat) :: (l2, k2, g2) :: post) eof') = .ok ts' ∧
+      ts.map (·.kind) = weave (lexFlags (pre ++ [(l, k, g)])) ++
+        .terminatorLineBreak :: weave (lexFlags ((l2, k2, g2) :: post)) ∧
+      ts'.map (·.kind) = weave (lexFlags (pre ++ [(l, k, g)])) ++ weave (lexFlags ((l2, k2, g2) :: post))
+theorem C10_linebreak_is_separator : C10_linebreak_is_separator_stmt := by
+  intro cc hs g0 g0' pre post l l2 k k2 g gflat g2 eof eof' h h' hg hf hk hk2
+  obtain ⟨ts, h1, h2⟩ := h.law hs
+  obtain ⟨ts', h1', h2'⟩ := h'.law hs
+  refine ⟨ts, ts', h1, h1', ?_, ?_⟩
+  · rw [h2, lexFlags_append, lexFlags_append]
+    simp only [lexFlags, List.map_cons, List.map_nil]
+    rw [weave_split]
+    simp [sepKinds, hg, hk, hk2]
+  · rw [h2', lexFlags_append, lexFlags_append]
+    simp only [lexFlags, List.map_cons, List.map_nil]
+    rw [weave_split, weave_last _ k (Gap.hasNL gflat) (Gap.hasNL g)]
+    simp [sepKinds, hf]
+
+/-- `weave` is compositional (the general form of the three statements above). -/
+def C10_weave_split_stmt : Prop :=
+  ∀ (A : List (TokKind × Bool)) (k : TokKind) (b : Bool) (k' : TokKind) (b' : Bool)
+    (B : List (TokKind × Bool)),
+    weave (A ++ (k, b) :: (k', b') :: B) =
+      weave (A ++ [(k, b)]) ++
+        (if b && Generated.canEnd k == some true && Generated.canStart k' == some true
+          then [.terminatorLineBreak] else []) ++ weave ((k', b') :: B)
+theorem C10_weave_split : C10_weave_split_stmt := weave_split
+
+/-! ### Non-vacuity of the render law -/
+
+theorem C10_cc_sane2 : C10_cc.Sane2 :=
+  { hash_plain := by decide, nl_plain := by decide, space_ws := by decide, tab_ws := by decide,
+    hash_cont := by decide, nl_cont := by decide }
+
+/-- `x = 1 +⏎  2 #c⏎⏎y # end` -/
+def C10_itemsA : List LexItem :=
+  [(['x'], .identifier ['x'], [.blank ' ']), (['='], .equals, [.blank ' ']),
+   (['1'], .integerLiteral 1, [.blank ' ']), (['+'], .plus, [.newline, .blank ' ', .blank ' ']),
+   (['2'], .integerLiteral 2, [.blank ' ', .comment ['c'], .newline]),
+   (['y'], .identifier ['y'], [.blank ' '])]
+/-- `x=1+⏎2⏎y`: the same line-break lexFlags as A, nothing else -/
+def C10_itemsB : List LexItem :=
+  [(['x'], .identifier ['x'], []), (['='], .equals, []), (['1'], .integerLiteral 1, []),
+   (['+'], .plus, [.newline]), (['2'], .integerLiteral 2, [.newline]), (['y'], .identifier ['y'], [])]
+/-- `x=1+⏎2 y`: B with the gap between `2` and `y` on one line -/
+def C10_itemsC : List LexItem :=
+  [(['x'], .identifier ['x'], []), (['='], .equals, []), (['1'], .integerLiteral 1, []),
+   (['+'], .plus, [.newline]), (['2'], .integerLiteral 2, [.blank ' ']), (['y'], .identifier ['y'], [])]
+/-- `x=1+2⏎y`: B without the line break after `+` -/
+def C10_itemsD : List LexItem :=
+  [(['x'], .identifier ['x'], []), (['='], .equals, []), (['1'], .integerLiteral 1, []),
+   (['+'], .plus, []), (['2'], .integerLiteral 2, [.newline]), (['y'], .identifier ['y'], [])]
+
+theorem C10_renderingA : Rendering C10_cc [] C10_itemsA (some ['e']) :=
+  Rendering.of_check (by decide) (by decide) (eofOK_some (by decide)) (by decide)
+theorem C10_renderingB : Rendering C10_cc [.newline] C10_itemsB none :=
+  Rendering.of_check (by decide) (by decide) eofOK_none (by decide)
+theorem C10_renderingC : Rendering C10_cc [] C10_itemsC none :=
+  Rendering.of_check (by decide) (by decide) eofOK_none (by decide)
+theorem C10_renderingD : Rendering C10_cc [] C10_itemsD none :=
+  Rendering.of_check (by decide) (by decide) eofOK_none (by decide)
+
+example : renderText [] C10_itemsA (some ['e']) =
+    ['x',' ','=',' ','1',' ','+','\n',' ',' ','2',' ','#','c','\n','\n','y',' ','#','e'] := by decide
+example : renderText [.newline] C10_itemsB none = ['\n','x','=','1','+','\n','2','\n','y'] := by decide
+example : renderText [] C10_itemsD none = ['x','=','1','+','2','\n','y'] := by decide
+
+/-- both sides of the law, evaluated: the tokenizer's kinds are the woven kinds -/
+example : (match tokenize C10_cc (renderText [] C10_itemsA (some ['e'])) with
+      | .ok ts => some (ts.map (·.kind)) | _ => none) = some (weave (lexFlags C10_itemsA)) := by decide
+example : weave (lexFlags C10_itemsA) = [.identifier ['x'], .equals, .integerLiteral 1, .plus,
+    .integerLiteral 2, .terminatorLineBreak, .identifier ['y']] := by decide
+-- hypotheses of `C10_layout_irrelevant` for A and B
+example : C10_itemsA.map (·.2.1) = C10_itemsB.map (·.2.1) ∧
+    (C10_itemsA.map fun it => Gap.hasNL it.2.2) = (C10_itemsB.map fun it => Gap.hasNL it.2.2) := by
+  decide
+-- hypotheses of `C10_break_after_cannot_end` (gap after `+`, B versus D), of
+-- `C10_break_before_cannot_start` (gap before `=`), of `C10_linebreak_is_separator` (gap between `2`
+-- and `y`, B versus C)
+example : C10_itemsB = C10_itemsB.take 3 ++ (['+'], .plus, [.newline]) :: C10_itemsB.drop 4 ∧
+    C10_itemsD = C10_itemsB.take 3 ++ (['+'], .plus, []) :: C10_itemsB.drop 4 ∧
+    Generated.canEnd .plus = some false := by decide
+example : C10_itemsA = [] ++ (['x'], .identifier ['x'], [.blank ' ']) :: (['='], .equals, [.blank ' ']) ::
+    C10_itemsA.drop 2 ∧ Generated.canStart .equals = some false := by decide
+example : C10_itemsB = C10_itemsB.take 4 ++ (['2'], .integerLiteral 2, [.newline]) ::
+      (['y'], .identifier ['y'], []) :: [] ∧
+    C10_itemsC = C10_itemsB.take 4 ++ (['2'], .integerLiteral 2, [.blank ' ']) ::
+      (['y'], .identifier ['y'], []) :: [] ∧
+    Gap.hasNL [GapItem.newline] = true ∧ Gap.hasNL [GapItem.blank ' '] = false ∧
+    Generated.canEnd (.integerLiteral 2) = some true ∧
+    Generated.canStart (.identifier ['y']) = some true := by decide
+
+-- the corollaries instantiated at the concrete renderings (all hypotheses hold together)
+example : ∃ ts ts', tokenize C10_cc (renderText [] C10_itemsA (some ['e'])) = .ok ts ∧
+    tokenize C10_cc (renderText [.newline] C10_itemsB none) = .ok ts' ∧
+    ts.map (·.kind) = ts'.map (·.kind) :=
+  C10_layout_irrelevant C10_cc C10_cc_sane2 _ _ _ _ _ _ C10_renderingA C10_renderingB
+    (by decide) (by decide)
+example : ∃ ts ts', tokenize C10_cc (renderText [.newline] C10_itemsB none) = .ok ts ∧
+    tokenize C10_cc (renderText [] C10_itemsD none) = .ok ts' ∧ ts.map (·.kind) = ts'.map (·.kind) :=
+  C10_break_after_cannot_end C10_cc C10_cc_sane2 [.newline] [] (C10_itemsB.take 3) (C10_itemsB.drop 4)
+    ['+'] .plus [.newline] [] none none C10_renderingB C10_renderingD (by decide)
+example : ∃ ts ts', tokenize C10_cc (renderText [] C10_itemsA (some ['e'])) = .ok ts ∧
+    tokenize C10_cc (renderText [] C10_itemsA (some ['e'])) = .ok ts' ∧
+    ts.map (·.kind) = ts'.map (·.kind) :=
+  C10_break_before_cannot_start C10_cc C10_cc_sane2 [] [] [] (C10_itemsA.drop 2)
+    ['x'] ['='] (.identifier ['x']) .equals [.blank ' '] [.blank ' '] [.blank ' '] (some ['e'])
+    (some ['e']) C10_renderingA C10_renderingA (by decide)
+example : ∃ ts ts', tokenize C10_cc (renderText [.newline] C10_itemsB none) = .ok ts ∧
+    tokenize C10_cc (renderText [] C10_itemsC none) = .ok ts' ∧
+    ts.map (·.kind) = [.identifier ['x'], .equals, .integerLiteral 1, .plus, .integerLiteral 2] ++
+      .terminatorLineBreak :: [.identifier ['y']] ∧
+    ts'.map (·.kind) = [.identifier ['x'], .equals, .integerLiteral 1, .plus, .integerLiteral 2] ++
+      [.identifier ['y']] :=
+  C10_linebreak_is_separator C10_cc C10_cc_sane2 [.newline] [] (C10_itemsB.take 4) []
+    ['2'] ['y'] (.integerLiteral 2) (.identifier ['y']) [.newline] [.blank ' '] [] none none
+    C10_renderingB C10_renderingC (by decide) (by decide) (by decide) (by decide)
+
